@@ -336,7 +336,17 @@ def check_plan(it, old, new, res, sym, survivors, stats):
                 total_surv = Z(0)
                 for (_po, _pn) in survivors:
                     total_surv = total_surv + Z(ln[_pn][1])
-                if not holds(smt, z3.Implies(assume, z3.Or(covered == Z(z_n), z3.UGE(total_copied, total_surv)))):
+                # ... nor when it carries as many leaves as this reading has surviving leaves (ties between partial matches are
+                # broken by patch count, not by words)
+                n_cov = Z(0)
+                for (pl, nl_) in onodes:
+                    if nl_[0] == 'F':
+                        continue
+                    a_l, z_l = lo[pl]
+                    ins = [z3.And(z3.ULE(Z(src), Z(a_l)), z3.ULE(Z(a_l) + Z(z_l), Z(src) + Z(size))) for (src, _d, size) in patches]
+                    n_cov = n_cov + z3.If(z3.Or(*ins) if ins else z3.BoolVal(False), Z(1), Z(0))
+                n_surv = sum(len(leaves(old_nodes[_po])) for (_po, _pn) in survivors)
+                if not holds(smt, z3.Implies(assume, z3.Or(covered == Z(z_n), z3.UGE(total_copied, total_surv), z3.UGE(n_cov, Z(n_surv))))):
                     raise PlanViolation('survivor', 'surviving subtree old%s -> new%s is not carried over completely (and the plan carries fewer words than the survivors hold)' % (list(po), list(pn)))
                 continue
             if not holds(smt, z3.Implies(assume, covered == Z(z_n))):
@@ -422,6 +432,9 @@ def concrete_clause_check(old, new, sizes, real, survivors):
                 if any(m[0] == lf[0] and m[1] not in own_ids and sizes[m[1]] == sizes[lf[1]] for lf in own for m in ol + nl):
                     continue
                 if sum(z for (s_, d_, z) in ps) >= sum(ln[tuple(q)][1] for (_, q) in survivors):
+                    continue
+                n_cov = sum(1 for (pl, nl_) in nodes(old) if nl_[0] != 'F' and any(s_ <= lo[pl][0] and lo[pl][0] + lo[pl][1] <= s_ + z for (s_, d_, z) in ps))
+                if n_cov >= sum(len(leaves(old_nodes[tuple(q)])) for (q, _) in survivors):
                     continue
             a_n, z_n = ln[tuple(pn)]
             cov = sum(z for (s, d, z) in ps if d >= a_n and d + z <= a_n + z_n)
